@@ -14,6 +14,7 @@ import (
 
 	"github.com/robfig/soy/ast"
 	"github.com/robfig/soy/data"
+	"github.com/robfig/soy/errortypes"
 	"github.com/robfig/soy/soyhtml"
 	"github.com/robfig/soy/soyjs"
 	"github.com/robfig/soy/soymsg"
@@ -64,6 +65,8 @@ func c13Extras(variant int, withError bool) srcFile {
 		fmt.Fprintf(&b, "{template .c%d}c%d{/template}\n", i, i)
 	}
 	b.WriteString("/** @param p\n * @param q */\n{template .need}{length(keys($p))}{$q}{/template}\n")
+	// a render that always fails, several lines into its template: the error names a file and a line
+	b.WriteString("/** */\n{template .fail}\nbefore\n{if true}\n  {print -'x'}\n{/if}\nafter\n{/template}\n")
 	b.WriteString(extraTemplates)
 	return srcFile{"extras.soy", b.String()}
 }
@@ -133,12 +136,12 @@ func c13Observe(out *bytes.Buffer, bnd *soy.Bundle, entry string, d map[string]r
 	out.WriteString(strings.Join(msgs, "\n") + "\n")
 	// rendered output (error text of render errors embeds stack traces: only success/failure is compared)
 	tofu := soyhtml.NewTofu(reg)
-	for _, e := range []string{entry, "ex.main", "chain.user.main"} {
+	for _, e := range []string{entry, "ex.main", "chain.user.main", "ex.fail"} {
 		if _, ok := reg.Template(e); !ok {
 			continue
 		}
 		got, rerr := render(tofu, e, d, ij, nil)
-		fmt.Fprintf(out, "RENDER %s %s %q\n", e, errClass(rerr), got)
+		fmt.Fprintf(out, "RENDER %s %s %q\n", e, c13ErrText(rerr), got)
 	}
 	// generated JavaScript per file, keyed by file name
 	tr := translationsEmptying(reg)
@@ -174,15 +177,32 @@ func c13Observe(out *bytes.Buffer, bnd *soy.Bundle, entry string, d map[string]r
 			fmt.Fprintf(out, "SECOND-USE-DIFFERS second JavaScript generation of %s: %s\n", sf.Name, again)
 		}
 	}
-	for _, e := range []string{entry, "ex.main", "chain.user.main"} {
+	for _, e := range []string{entry, "ex.main", "chain.user.main", "ex.fail"} {
 		if _, ok := reg.Template(e); !ok {
 			continue
 		}
 		got, rerr := render(tofu, e, d, ij, nil)
-		if line := fmt.Sprintf("RENDER %s %s %q\n", e, errClass(rerr), got); !strings.Contains(out.String(), line) {
+		if line := fmt.Sprintf("RENDER %s %s %q\n", e, c13ErrText(rerr), got); !strings.Contains(out.String(), line) {
 			fmt.Fprintf(out, "SECOND-USE-DIFFERS render after JavaScript generation: %s", line)
 		}
 	}
+}
+
+// c13ErrText is what a caller sees of a render error: its position and the first line of its text (a runtime error
+// carries a stack trace after that, which names addresses).
+func c13ErrText(err error) string {
+	if err == nil {
+		return "ok"
+	}
+	text := err.Error()
+	if k := strings.IndexByte(text, '\n'); k >= 0 {
+		text = text[:k]
+	}
+	pos := "no-position"
+	if fp, ok := err.(errortypes.ErrFilePos); ok {
+		pos = fmt.Sprintf("%s:%d:%d", fp.File(), fp.Line(), fp.Col())
+	}
+	return fmt.Sprintf("error[%s %q]", pos, fw.Trim(text, 300))
 }
 
 func c13Program(seed uint64, tier string) (files []srcFile, prog *gen.Program, hasErr bool) {
@@ -236,6 +256,15 @@ func c13Program(seed uint64, tier string) (files []srcFile, prog *gen.Program, h
 		// a second source of globals that defines three names again: one error, always the same one
 		files = append(files, srcFile{"more.globals", "// overlapping definitions\nGLOBAL_INT = 5\napp.NAME = 'x'\nOTHER = 1\nFLAG = false\n"})
 		hasErr = true
+	}
+	if r.P(1, 4) && files[len(files)-1].Name != "tiny.soy" {
+		// every file under one name (AddTemplateString does not ask for distinct names, or for a name at all)
+		name := []string{"", "views.soy"}[r.Intn(2)]
+		for k := range files {
+			if strings.HasSuffix(files[k].Name, ".soy") && files[k].Name != "tiny.soy" {
+				files[k].Name = name
+			}
+		}
 	}
 	if r.P(1, 2) {
 		// a file that compiles but whose JavaScript cannot be generated: the function exists only in the HTML backend
@@ -362,11 +391,13 @@ func init() {
 			// the same sources read from a directory (Bundle.AddTemplateDir walks it in lexical order): nothing but the
 			// way the text reaches the compiler differs
 			if i%4 == 1 {
-				hasGlobalsFile := false
+				hasGlobalsFile := false // (or files that cannot lie side by side in a directory)
+				seenName := map[string]bool{}
 				for _, f := range files {
-					if strings.HasSuffix(f.Name, ".globals") {
+					if strings.HasSuffix(f.Name, ".globals") || f.Name == "" || seenName[f.Name] {
 						hasGlobalsFile = true
 					}
+					seenName[f.Name] = true
 				}
 				if !hasGlobalsFile {
 					dir, derr := os.MkdirTemp("", "c13dir")
